@@ -40,18 +40,20 @@ def globals_file(wd):
     return p, n
 
 
-def scenarios(rnd, wd, k):
-    """k independent scenario scripts (as line lists using slot base s) and the files each produces"""
+def scenarios(rnd, wd, k, small=False, pfx="sc"):
+    """k independent scenario scripts (as line lists using slot base s) and the files each produces.
+    small: a few KiB only - for the race detector, whose per-thread history of earlier accesses is bounded: an
+    access is reported as racing only while the other thread's access is still in that history"""
     out = []
     for i in range(k):
-        s = (i % 4) * 4        # slot base: ctx/fd slots s..s+3 ; dl slot i%4 ; range slot i%4 + 1? (fetch uses range 0) 
-        tag = "sc%d" % i
-        D = writegen.content(rnd, rnd.choice(["text", "rand", "mixed"]), rnd.choice([20000, 90000, 200000]))
+        s = (i % 4) * 4        # slot base: ctx/fd slots s..s+3 ; dl slot i%4
+        tag = "%s%d" % (pfx, i)
+        D = writegen.content(rnd, rnd.choice(["text", "rand", "mixed"]), rnd.choice([20000, 90000, 200000]) if not small else rnd.choice([3000, 9000]))
         src = os.path.join(wd, tag + ".in"); open(src, "wb").write(D)
-        cfg = {"comp": rnd.choice([0, 2]), "manual": False, "full": 1, "chunk": 3, "level": 1, "max": 20000}
+        cfg = {"comp": rnd.choice([0, 2]), "manual": False, "full": 1, "chunk": 3, "level": 1, "max": 20000 if not small else 2000}
         out_zck = os.path.join(wd, tag + ".zck")
-        cA = [b""] + [corpus.text(rnd, n) for n in (300, 33000, 200)]
-        cB = [b""] + [cA[1], corpus.rand(rnd, 35000), cA[3], cA[2]]
+        cA = [b""] + [corpus.text(rnd, n) for n in ((300, 33000, 200) if not small else (300, 1500, 200))]
+        cB = [b""] + [cA[1], corpus.rand(rnd, 35000 if not small else 900), cA[3], corpus.rand(rnd, 700), cA[2], corpus.rand(rnd, 20000 if not small else 1200)]
         A = ref.build_file(cA, comp_type=0, hash_type=1, chunk_hash_type=3)[0]; B = ref.build_file(cB, comp_type=0, hash_type=1, chunk_hash_type=3)[0]
         pa = os.path.join(wd, tag + ".A"); pb = os.path.join(wd, tag + ".B"); open(pa, "wb").write(A); open(pb, "wb").write(B)
         hB = ref.parse_header(B)
@@ -70,7 +72,14 @@ def scenario_lines(sc, suffix):
     h = sc["hB"]
     L += ["ctx %d" % s, "open %d %s rwt" % (s, tgt), "pwrite %d 0 file:%s:0:%d" % (s, sc["B"], h.hdr_total), "seek %d 0" % s, "init_read %d %d" % (s, s), "find_valid %d" % s,
           "ctx %d" % (s + 1), "open %d %s r" % (s + 1, sc["A"]), "init_read %d %d" % (s + 1, s + 1), "copy_chunks %d %d" % (s + 1, s), "find_valid %d" % s, "validate_data %d" % s,
-          "free %d" % (s + 1), "free %d" % s, "closefd %d" % s, "closefd %d" % (s + 1)]
+          "free %d" % (s + 1)]
+    # fetch the rest: rounds of at most two ranges (multipart responses with a boundary of this scenario's own, fed in
+    # fragments), as the documented update loop does; then validate and trim
+    d = s // 4
+    L += ["reset_failed %d" % s, "dl_init %d %d" % (d, s)]
+    for rd in range(4):
+        L += ["fetch %d %d %s 2 %d boundary=%s%d quoted=%d" % (d, s, sc["B"], (977, 16384, 1, 4093)[(rd + d) % 4] if rd else 977, "b0und.ary+", d * 10 + rd, rd % 2)]
+    L += ["dl_free %d" % d, "validate_data %d" % s, "ftruncate %d %d" % (s, len(sc["Bbuf"])), "free %d" % s, "closefd %d" % s, "closefd %d" % (s + 1)]
     return L, [zck, sink, tgt]
 
 
@@ -108,12 +117,20 @@ def run(tier):
     evs = common.run_driver("\n".join(L) + "\n", "plain", timeout=900)
     if any(e["op"] in ("Crash", "Hang") for e in evs):
         trace.append({"op": "Crash", "why": "serial run"})
-    statics = 0
+    statics = 0; fcl = 0
     for e in evs:
         if e["op"] == "gdiff":
-            trace.append({"op": "footprint", "staticIoBufs": e["static_bufs"] - statics, "globalsWritten": e["changed"], "allowed": ALLOWED_GLOBALS})
-            statics = e["static_bufs"]
+            trace.append({"op": "footprint", "staticIoBufs": e["static_bufs"] - statics, "globalsWritten": e["changed"], "allowed": ALLOWED_GLOBALS,
+                          "foreignCloses": e["foreign_closes"] - fcl})
+            statics = e["static_bufs"]; fcl = e["foreign_closes"]
     sdig = {t: digest_files(p) for t, p in serial.items()}
+    for sc in scs:          # vacuity guard: the serial scenario must really finish its update (write, read back, copy, multipart download)
+        z, sink, tgt = serial[sc["tag"]]
+        if not (os.path.exists(tgt) and open(tgt, "rb").read() == sc["Bbuf"] and os.path.exists(sink) and open(sink, "rb").read() == sc["D"]):
+            trace.append({"op": "Crash", "why": "serial scenario did not produce its outputs", "tag": sc["tag"]})
+    ck.extra["multipart_rounds_in_serial_run"] = sum(1 for e in evs if e["op"] == "fetch" and e.get("multi") == 1)
+    if ck.extra["multipart_rounds_in_serial_run"] < len(scs):
+        raise Broken("the download phase of the scenarios did not produce multipart rounds")
     # ---- (c) concurrent runs, several rounds with different groupings
     rounds = 3 if tier == "quick" else 12
     for rd in range(rounds):
@@ -135,47 +152,72 @@ def run(tier):
                 trace.append({"op": "scenario", "tag": sc["tag"], "round": rd, "serial": sdig[sc["tag"]], "concurrent": digest_files(outs[sc["tag"]])})
                 ck.case((sc["tag"], rd))
     ck.sample(trace[0]); ck.sample([t for t in trace if t["op"] == "scenario"][0])
-    # ---- (d) ThreadSanitizer
-    if tier == "thorough" or os.environ.get("VERIF_C19_TSAN"):
-        common.build("tsan")
-        group = scs[:nthreads]
-        for j, sc in enumerate(group):
-            sc["slot"] = j * 4
-        files = []
-        for j, sc in enumerate(group):
-            lines, o = scenario_lines(sc, ".tsan")
-            p = os.path.join(wd, "tsan-%d.zs" % j); open(p, "w").write("\n".join(lines) + "\n"); files.append(p)
-        errp = os.path.join(wd, "tsan.err")
-        common.run_driver("case tsan 600\nthreads %s\nend\n" % " ".join(files), "tsan", env={"VERIF_NO_SEGV_HANDLER": "1", "ZV_SHIM_OFF": "1"}, timeout=1200, stderr_path=errp)
-        rep = open(errp, "rb").read().decode("latin1") if os.path.exists(errp) else ""
-        blocks = rep.split("WARNING: ThreadSanitizer")
-        harness_syms = set()
-        for o in ("h/zckdrive.o", "h/shim.o"):
-            outp = subprocess.run(["nm", "--defined-only", os.path.join(common.BUILD, "tsan", o)], stdout=subprocess.PIPE, text=True).stdout
-            harness_syms |= {l.split()[-1] for l in outp.splitlines() if l.split()}
-        def in_library(b):
-            """is the racing memory library-owned: a global defined by a library object, or a heap block
-            allocated from library code"""
-            m = re.search(r"Location is global '([^']+)'", b)
-            if m:
-                name = m.group(1)
-                return name not in harness_syms and name.split(".")[-1] not in harness_syms
-            if "Location is heap block" in b:
-                tail = b.split("Location is heap block", 1)[1]
-                for fm in re.findall(r"#\d+ \S+ (\S+?):\d+", tail):
-                    if "/harness/" in fm:
-                        return False
-                    if "/src/lib/" in fm:
-                        return True
-                return False
-            # stack or unknown location: library-owned if an access is made directly by library code
-            tops = re.findall(r"\n\s+#0 \S+ (\S+)", b)
-            return any("/src/lib/" in loc for loc in tops[:2])
-        lib = [b for b in blocks[1:] if "data race" in b.split("\n")[0] and in_library(b)]
-        ck.extra["tsan_reports"] = len(blocks) - 1; ck.extra["tsan_reports_in_library"] = len(lib)
+    # ---- (d) ThreadSanitizer, both hash back ends (quick tier too: build and run take a few seconds)
+    if True:
+        lib = []; nrep = 0
+        for tv in ("tsan", "tsanbundled"):
+            common.build(tv)
+            group = scenarios(rnd, wd, nthreads, small=True, pfx=tv)
+            for j, sc in enumerate(group):
+                sc["slot"] = j * 4
+            files = []
+            for j, sc in enumerate(group):
+                lines, o = scenario_lines(sc, "." + tv)
+                p = os.path.join(wd, "%s-%d.zs" % (tv, j)); open(p, "w").write("\n".join(lines) + "\n"); files.append(p)
+            errp = os.path.join(wd, tv + ".err")
+            tev = common.run_driver("case %s 600\nthreads %s\nend\n" % (tv, " ".join(files)), tv, env={"VERIF_NO_SEGV_HANDLER": "1", "ZV_SHIM_OFF": "1", "ZV_STAGGER_MS": os.environ.get("VERIF_C19_STAGGER_MS", "0")}, timeout=1200, stderr_path=errp)
+            if sum(1 for e in tev if e["op"] == "fetch" and e.get("multi") == 1) < len(group):
+                raise Broken("the scenarios did not run to their download phase under " + tv)
+            rep = open(errp, "rb").read().decode("latin1") if os.path.exists(errp) else ""
+            blocks = rep.split("WARNING: ThreadSanitizer")
+            harness_syms = set(); lib_syms = set()
+            def defined(path):
+                outp = subprocess.run(["nm", "--defined-only", path], stdout=subprocess.PIPE, text=True).stdout
+                return {l.split()[-1] for l in outp.splitlines() if l.split()}
+            for o in ("h/zckdrive.o", "h/shim.o"):
+                harness_syms |= defined(os.path.join(common.BUILD, tv, o))
+            for root, _, fs in os.walk(os.path.join(common.BUILD, tv, "obj")):
+                for f in fs:
+                    if f.endswith(".o") and "/src/lib" in root + "/":
+                        lib_syms |= defined(os.path.join(root, f))
+            def in_library(b):
+                """is the racing memory library-owned: a global defined by a library object, or a heap block
+                allocated from library code"""
+                m = re.search(r"Location is global '([^']+)'", b)
+                if m:
+                    name = m.group(1)            # clang names a function-local static "function.variable"
+                    return name in lib_syms or name.split(".")[0] in lib_syms
+                if "Location is heap block" in b:
+                    tail = b.split("Location is heap block", 1)[1]
+                    for fm in re.findall(r"#\d+ \S+ (\S+?):\d+", tail):
+                        if "/harness/" in fm:
+                            return False
+                        if "/src/lib/" in fm:
+                            return True
+                    return False
+                # stack or unknown location: library-owned if an access is made directly by library code
+                tops = re.findall(r"\n\s+#0 \S+ (\S+)", b)
+                return any("/src/lib/" in loc for loc in tops[:2])
+            lib += [b for b in blocks[1:] if "data race" in b.split("\n")[0] and in_library(b)]
+            nrep += len(blocks) - 1
+        ck.extra["tsan_reports"] = nrep; ck.extra["tsan_reports_in_library"] = len(lib)
+        races = []
         for b in lib[:5]:
             frames = re.findall(r"#\d+ (\S+) (\S+/src/lib/\S+)", b)
-            trace.append({"op": "Race", "frames": [" ".join(f) for f in frames[:6]]})
+            m = re.search(r"Location is (global '[^']+'|heap block[^\n]*|stack[^\n]*)", b)
+            races.append({"op": "Race", "location": m.group(1)[:120] if m else "?", "frames": [" ".join(f) for f in frames[:6]]})
+        # a static I/O buffer or a written process-wide variable is interference only if it is accessed without
+        # synchronisation: the race detector's verdict decides (a lock-protected cache would be accepted)
+        anomalies = 0
+        for t in trace:
+            if t["op"] == "footprint":
+                t["raced"] = bool(lib)
+                if t["staticIoBufs"] or any(g not in ALLOWED_GLOBALS for g in t["globalsWritten"]):
+                    anomalies += 1
+        ck.extra["footprint_anomalies"] = anomalies
+        if anomalies and not lib:
+            ck.notes.append("static storage / process-wide variables are used by the library but the race detector found them synchronised")
+        trace = races + trace
     p = os.path.join(wd, "t.ndjson"); common.write_ndjson(p, trace)
     ok, res = common.validate_trace("Trace_Threads", "Trace_Threads.cfg", p)
     ck.add_tlc("Trace_Threads", res); ck.traces += 1
@@ -190,7 +232,7 @@ def run(tier):
         common.write_ndjson(p, trace)
         ok, res = common.validate_trace("Trace_Threads", "Trace_Threads.cfg", p); ck.traces += 1
     if not ck.violations:
-        common.write_ndjson(p, [{"op": "footprint", "staticIoBufs": 1, "globalsWritten": [], "allowed": ALLOWED_GLOBALS}])
+        common.write_ndjson(p, [{"op": "footprint", "staticIoBufs": 1, "globalsWritten": [], "allowed": ALLOWED_GLOBALS, "foreignCloses": 0, "raced": True}])
         ok, res = common.validate_trace("Trace_Threads", "Trace_Threads.cfg", p)
         if ok:
             raise Broken("negative control: a static I/O buffer was accepted")
